@@ -32,6 +32,14 @@ theorem saved_line_round_trip (p : Nat) (hp : 16 ≤ p) (s : List Q) (hs : ∀ x
     ∀ x ∈ s, UniquelyNearest (roundSci p x) x :=
   reload_precision_ge_16 p hp s hs
 
+/-- … and the overflow threshold is no competitor either: the printed value of any double is strictly
+    closer to it than to `±2^1024` (a correctly rounding parser rounds against that value at the top of the
+    range), so the largest double round-trips too -/
+theorem printed_value_farther_from_overflow (p : Nat) (hp : 16 ≤ p) (x : Q) (hx : IsDouble x) :
+    |roundSci p x - x| < |roundSci p x - (2 : Q) ^ (1024 : Int)| ∧
+    |roundSci p x - x| < |roundSci p x - (-(2 : Q) ^ (1024 : Int))| :=
+  print_farther_from_overflow p hp x hx
+
 /-- the bound is sharp: 16 significant digits do not suffice (`x = 10000000000000002`, printed as `1e16`) -/
 theorem sixteen_digits_are_not_enough :
     ∃ x y : Q, IsDouble x ∧ IsDouble y ∧ y ≠ x ∧ |roundSci 15 x - y| ≤ |roundSci 15 x - x| :=
